@@ -902,13 +902,30 @@ def real_effective(args):
     if any(d.startswith('REL' + os.sep) for d in dirs):
         os.chdir(os.path.dirname(cfg))
         dirs = [d[4:] if d.startswith('REL' + os.sep) else d for d in dirs]
+    # YAML documents loaded by the front end during the call: the scenarios are shallow and made of a handful of files,
+    # so hundreds of loads mean recursion without bound (an inclusion / alias cycle that is not detected) even when the
+    # front end's recursion-limit guard reports it as a configuration error in the end
+    import yaml
+    loads = [0]
+    yaml_load = yaml.load
+
+    def counting_load(*a, **k):
+        loads[0] += 1
+        return yaml_load(*a, **k)
+    yaml.load = counting_load
     try:
         with open(cfg) as f:
-            return 'ok', barectf.effective_configuration_file(f, True, dirs)
+            r = 'ok', barectf.effective_configuration_file(f, True, dirs)
     except barectf._ConfigurationParseError as exc:
-        return 'cfgerr', str(exc)[-400:]
+        r = 'cfgerr', str(exc)[-400:]
     except Exception as exc:  # noqa
-        return 'crash', '%s: %s' % (type(exc).__name__, str(exc)[-300:])
+        r = 'crash', '%s: %s' % (type(exc).__name__, str(exc)[-300:])
+    finally:
+        yaml.load = yaml_load
+    if r[0] != 'crash' and (loads[0] > 250 or (r[0] == 'cfgerr' and 'too many nested levels' in r[1])):
+        return 'crash', 'UnboundedRecursion: %d YAML documents loaded for a shallow scenario; outcome %s %s' % (
+            loads[0], r[0], r[1][-200:] if r[0] == 'cfgerr' else '')
+    return r
 
 
 def run(ctx):
